@@ -40,7 +40,7 @@ THEOREM_PRED = {'C10_solved_iff': 'IsProblemSolved', 'C10_indiffInfOrUnb_iff': '
                 'C10_counterexample_infeasible': 'IsProblemInfeasible',
                 'C10_solvedOrFeasible': 'IsProblemSolvedOrFeasible', 'C10_counterexample_solvedOrFeasible': 'IsProblemSolvedOrFeasible',
                 'C10_objective': 'objective', 'C10_counterexample_objective': 'objective', 'C10_no_objective': 'objective',
-                'C10_report_model_eq_generated': 'objective', 'C10_code_echo': 'code', 'C10_alt': 'altsol', 'C10_chain_forwards_code': 'altsol', 'C10_feasrelax': 'message:', 'C10_gen_msgTable': 'message', 'C10_msg': 'message', 'C10_gen_suffix_guards': 'suffix:', 'C10_gen_reg': 'table', 'C10_gen_add': 'table', 'C10_reg': 'table', 'C10_addResults': 'table', 'C10_kappa': 'suffix:kappa', 'C10_unbdd': 'suffix:unbdd', 'C10_dunbdd': 'suffix:dunbdd', 'C10_iis': 'suffix:iis', 'C10_solcheck': 'message:chk', 'C10_gen_app': 'delivery', 'C10_message_delivery': 'delivery', 'C10_gen_ray_bits': 'suffix:', 'C10_ray_suffixes_by_option': 'suffix:', 'C10_extras_eq_generated': 'suffix:', 'C10_vectors_echo': 'vectors',
+                'C10_report_model_eq_generated': 'objective', 'C10_code_echo': 'code', 'C10_alt': 'altsol', 'C10_chain_forwards_code': 'altsol', 'C10_feasrelax': 'message:', 'C10_gen_msgTable': 'message', 'C10_msg': 'message', 'C10_gen_suffix_guards': 'suffix:', 'C10_gen_reg': 'table', 'C10_gen_add': 'table', 'C10_reg': 'table', 'C10_addResults': 'table', 'C10_kappa': 'suffix:kappa', 'C10_unbdd': 'suffix:unbdd', 'C10_dunbdd': 'suffix:dunbdd', 'C10_iis': 'suffix:iis', 'C10_solcheck': 'message:chk', 'C10_gen_app': 'delivery', 'C10_gen_round': 'message:rounding-note', 'C10_code_echo_under_rounding': 'code', 'C10_round_note': 'message:rounding-note', 'C10_message_delivery': 'delivery', 'C10_gen_ray_bits': 'suffix:', 'C10_ray_suffixes_by_option': 'suffix:', 'C10_extras_eq_generated': 'suffix:', 'C10_vectors_echo': 'vectors',
                 'C10_enum': 'enum', 'C10_registry': 'table', 'C10_ranges': 'table', 'C10_rangeRows': 'table',
                 'C10_predicate_inclusions': 'Is'}
 
@@ -188,7 +188,7 @@ def run(ck):
     if rc3 != 0:
         translator_ok = False
         out, err = out + out3, err + err3
-    N_THEOREMS = 67
+    N_THEOREMS = 71
     proof_ok, failing = False, []
     if translator_ok:
         proof_ok, failing = ck.proof_stage('MpVerif.C10.Props', 'MpVerif/C10/Props.lean', 'C10_',
